@@ -264,6 +264,47 @@ def mutating_calls(body):
     return out
 
 
+def deref_writers(body):
+    """local L -> list of (Site, stmt/term) that write through a pointer derived from `&mut L…` (`*p = v`, `(*p).f = v`)."""
+    key = "derefw"
+    if key in body._reach_cache:
+        return body._reach_cache[key]
+    # pointer local -> base locals it may point into
+    points = defaultdict(set)
+    changed = True
+    rounds = 0
+    while changed and rounds < 6:
+        changed = False
+        rounds += 1
+        for l, ds in body.defs.items():
+            for s, kind, payload in ds:
+                if kind != "assign":
+                    continue
+                rv = payload["rv"]
+                src = None
+                if rv["k"] == "ref":
+                    src = rv["pl"]
+                    if src["p"] and src["p"][0] == "*":
+                        new = points.get(src["l"], set())
+                    else:
+                        new = {src["l"]}
+                elif rv["k"] == "use" and op_place(rv["op"]) is not None and not op_place(rv["op"])["p"]:
+                    new = points.get(op_place(rv["op"])["l"], set())
+                else:
+                    continue
+                if not new <= points[l]:
+                    points[l] |= new
+                    changed = True
+    out = defaultdict(list)
+    for p, ds in body.defs.items():
+        for s, kind, payload in ds:
+            if kind == "deref":
+                for base in points.get(p, ()):
+                    out[base].append((s, kind, payload))
+    body._reach_cache[key] = out
+    return out
+
+
 def slice_back(body, start_ops=(), start_locals=(), through_calls=True, stop_calls=None, max_nodes=4000):
     """Backward slice over locals starting from operands / locals.  Flow-insensitive (all definitions of a
     multiply assigned local are followed): an over-approximation of "may depend on"."""
@@ -300,6 +341,7 @@ def slice_back(body, start_ops=(), start_locals=(), through_calls=True, stop_cal
     for l in start_locals:
         work.append(l)
     mc = mutating_calls(body)
+    dw = deref_writers(body)
     while work:
         l = work.popleft()
         if l in sl.locals:
@@ -309,9 +351,9 @@ def slice_back(body, start_ops=(), start_locals=(), through_calls=True, stop_cal
             break
         if 1 <= l <= body.arg_count:
             sl.params.add(l)
-        for site, kind, payload in body.defs.get(l, []):
+        for site, kind, payload in list(body.defs.get(l, [])) + dw.get(l, []):
             sl.sites.add(site)
-            if kind in ("assign", "part"):
+            if kind in ("assign", "part", "deref") and "rv" in payload:
                 rv = payload["rv"]
                 if rv["k"] == "agg":
                     sl.aggs.append((site, rv))
@@ -321,7 +363,7 @@ def slice_back(body, start_ops=(), start_locals=(), through_calls=True, stop_cal
                     add_op(op)
                 if rv["k"] in ("ref", "discr"):
                     add_place(rv["pl"])
-                if kind == "part":
+                if kind in ("part", "deref"):
                     # index locals of the written place
                     for e in payload["pl"]["p"]:
                         if isinstance(e, dict) and "idx" in e:
@@ -569,7 +611,7 @@ def variant_constraints(body):
         if t["k"] == "call" and not t["dest"]["p"]:
             kills[bb].add(t["dest"]["l"])
     # only user-visible multiply-assigned locals matter for kills
-    multi = {l for l, ds in body.defs.items() if len([d for d in ds if d[1] != "part"]) > 1}
+    multi = {l for l, ds in body.defs.items() if len([d for d in ds if d[1] not in ("part", "deref")]) > 1}
 
     def base_local(pk):
         m = re.match(r"_(\d+)", pk)
